@@ -1,7 +1,7 @@
 (* C11: migration by label unifies exactly - equal labels (under the target's case rule) end on ONE
    taxon, different ones on DIFFERENT taxa, nothing is dropped *)
 From Coq Require Import List Bool Arith ZArith Lia.
-From DV Require Import Model.PyPrims Model.C11Model Proofs.C11Base.
+From DV Require Import Model.PyPrims Model.C11Model Proofs.C11Base Proofs.C11Inv.
 Import ListNotations.
 Open Scope nat_scope.
 
@@ -23,6 +23,13 @@ Proof.
   intros A B P a b da db i H. revert i. induction H as [|x y a b Hxy H IH]; intros i Hi; simpl in Hi; [lia|].
   destruct i as [|i]; simpl; [exact Hxy | apply IH; lia].
 Qed.
+
+Lemma Forall2_len : forall A B (P : A -> B -> Prop) a b, Forall2 P a b -> length a = length b.
+Proof. intros A B P a b H. induction H; simpl; congruence. Qed.
+
+Lemma Forall2_imp : forall A B (P Q : A -> B -> Prop) a b,
+  (forall x y, P x y -> Q x y) -> Forall2 P a b -> Forall2 Q a b.
+Proof. intros A B P Q a b H F. induction F; constructor; auto. Qed.
 
 Section WithLower.
 Variable lower : lbl -> lbl.
@@ -194,7 +201,7 @@ Proof.
   rewrite G. cbn [t_ns t_refs].
   set (refs := t_refs (gettree st tr)) in *.
   assert (Len : length refs' = length refs).
-  { apply Forall2_length in F. rewrite map_length in F. symmetry. exact F. }
+  { apply Forall2_len in F. rewrite map_length in F. symmetry. exact F. }
   assert (P : forall i, i < length refs ->
             first_match lower st1 n (ns_cs st n) (label st (nth i refs 0)) = Some (nth i refs' 0)).
   { intros i Hi. pose proof (Forall2_nth _ _ _ _ _ (label st 0) 0 i F) as Q. cbv beta in Q.
@@ -206,6 +213,161 @@ Proof.
       destruct (first_match_some _ _ _ _ _ (P j Hj)) as [_ Kj]. rewrite Ki, Kj, E. reflexivity.
     + intro E. pose proof (first_match_key st1 n (ns_cs st n) _ _ E) as Q. rewrite (P i Hi), (P j Hj) in Q.
       injection Q as Q. exact Q.
+Qed.
+
+
+(* ---- a whole tree list: one shared taxon_mapping_memo ---- *)
+Lemma recon_refs_trees : forall n u refs st memo st' refs' memo',
+  recon_refs lower st n u refs memo = (st', refs', memo') -> s_trees st' = s_trees st.
+Proof.
+  intros n u refs. induction refs as [|x r IH]; intros st memo st' refs' memo' H; cbn [recon_refs] in H.
+  - injection H as H1 H2 H3. subst. reflexivity.
+  - destruct (u || negb (memb x (members st n))).
+    + destruct (alookup x memo) as [t|].
+      * destruct (recon_refs lower (add_member st n t) n u r memo) as [[s2 r2] m2] eqn:R. injection H as H1 H2 H3. subst.
+        rewrite (IH _ _ _ _ _ R). unfold add_member. destruct (memb t (members st n)); reflexivity.
+      * destruct (if u then require_taxon lower st n (label st x) (ns_cs st n) else new_taxon st n (label st x)) as [s1 t] eqn:Q.
+        destruct (recon_refs lower s1 n u r ((x, t) :: memo)) as [[s2 r2] m2] eqn:R. injection H as H1 H2 H3. subst.
+        rewrite (IH _ _ _ _ _ R). destruct u.
+        -- unfold require_taxon in Q. destruct (first_match lower st n (ns_cs st n) (label st x)).
+           ++ injection Q as Q1 Q2. subst. reflexivity.
+           ++ unfold new_taxon, alloc_taxon in Q. injection Q as Q1 Q2. subst. reflexivity.
+        -- unfold new_taxon, alloc_taxon in Q. injection Q as Q1 Q2. subst. reflexivity.
+    + destruct (recon_refs lower st n u r memo) as [[s2 r2] m2] eqn:R. injection H as H1 H2 H3. subst.
+      eapply IH. exact R.
+Qed.
+
+Lemma gettree_upd_same : forall st st1 tr t,
+  s_trees st1 = s_trees st -> tr < length (s_trees st) -> gettree (set_tree st1 tr t) tr = t.
+Proof.
+  intros st st1 tr t T V. unfold gettree. simpl. apply nth_error_some_nth.
+  destruct (nth_error (s_trees st1) tr) eqn:E; [eapply nth_error_upd_same; exact E|].
+  apply nth_error_None in E. rewrite T in E. lia.
+Qed.
+
+Lemma gettree_upd_other : forall st st1 tr t x,
+  s_trees st1 = s_trees st -> x <> tr -> gettree (set_tree st1 tr t) x = gettree st x.
+Proof.
+  intros st st1 tr t x T Ne. unfold gettree. simpl.
+  destruct (nth_error (upd (s_trees st1) tr t) x) eqn:E.
+  - rewrite (nth_error_some_nth _ _ _ dtree _ E). rewrite nth_error_upd_other in E by exact Ne. rewrite T in E.
+    symmetry. apply nth_error_some_nth. exact E.
+  - rewrite nth_overflow by (apply nth_error_None; exact E).
+    rewrite nth_error_upd_other in E by exact Ne. rewrite T in E.
+    rewrite nth_overflow by (apply nth_error_None; exact E). reflexivity.
+Qed.
+
+Lemma migrate_trees_unify : forall n cs trs st memo,
+  NoDup trs -> (forall tr, In tr trs -> tr < length (s_trees st)) ->
+  ns_cs st n = cs -> wf_ns n st -> memo_ok n cs st memo ->
+  (forall tr x, In tr trs -> In x (t_refs (gettree st tr)) -> x < length (s_lab st)) ->
+  let st' := fst (migrate_trees lower st n true trs memo) in
+  ext n st st' /\ wf_ns n st' /\ memo_ok n cs st' (snd (migrate_trees lower st n true trs memo))
+  /\ (forall x, ~ In x trs -> gettree st' x = gettree st x)
+  /\ (forall tr, In tr trs ->
+        t_ns (gettree st' tr) = n /\
+        Forall2 (fun l t => first_match lower st' n cs l = Some t)
+                (map (label st) (t_refs (gettree st tr))) (t_refs (gettree st' tr))).
+Proof.
+  intros n cs trs. induction trs as [|tr r IH]; intros st memo ND V Ecs W Mo Vr; cbn [migrate_trees].
+  - cbn [fst snd]. split; [apply ext_refl|]. split; [exact W|]. split; [exact Mo|]. split; [reflexivity | intros tr []].
+  - apply NoDup_cons_iff in ND. destruct ND as [Nin ND'].
+    destruct (recon_refs lower st n true (t_refs (gettree st tr)) memo) as [[st1 refs'] memo1] eqn:R.
+    assert (Q : migrate_tree lower st tr n true memo = (set_tree st1 tr (mkTree n refs'), memo1))
+      by (unfold migrate_tree; rewrite R; reflexivity).
+    rewrite Q.
+    destruct (recon_unify_spec n cs _ _ _ _ _ _ R Ecs W Mo) as [X1 [W1 [Mo1 F1]]].
+    { intros x Hx. eapply Vr; [left; reflexivity | exact Hx]. }
+    pose proof (recon_refs_trees _ _ _ _ _ _ _ _ R) as T1.
+    set (s1 := set_tree st1 tr (mkTree n refs')).
+    assert (Vtr : tr < length (s_trees st)) by (apply V; left; reflexivity).
+    assert (Xs : ext n st s1) by exact X1.
+    assert (Ws : wf_ns n s1) by exact W1.
+    assert (Ms : memo_ok n cs s1 memo1) by exact Mo1.
+    assert (Gs : gettree s1 tr = mkTree n refs') by (apply (gettree_upd_same st st1); assumption).
+    assert (Go : forall x, x <> tr -> gettree s1 x = gettree st x) by (intros x Ne; apply (gettree_upd_other st st1); assumption).
+    destruct (IH s1 memo1 ND') as [X2 [W2 [Mo2 [K2 F2]]]].
+    + intros x Hx. unfold s1. simpl. rewrite upd_length, T1. apply V. right. exact Hx.
+    + destruct X1 as [_ [_ E]]. change (ns_cs s1 n) with (ns_cs st1 n). congruence.
+    + exact Ws.
+    + exact Ms.
+    + intros x y Hx Hy. assert (Ne : x <> tr) by (intro E; subst; contradiction). rewrite (Go x Ne) in Hy.
+      pose proof (ext_len n st s1 Xs). specialize (Vr x y (or_intror Hx) Hy). change (s_lab s1) with (s_lab st1) in *. lia.
+    + cbn [fst snd]. split; [eapply ext_trans; eassumption|]. split; [exact W2|]. split; [exact Mo2|]. split.
+      * intros x Hx. rewrite K2 by (intro Hr; apply Hx; right; exact Hr).
+        apply Go. intro E. apply Hx. left. symmetry. exact E.
+      * intros x [Hx|Hx].
+        -- subst x. rewrite (K2 tr Nin), Gs. cbn [t_ns t_refs]. split; [reflexivity|].
+           eapply Forall2_imp; [|exact F1]. intros a b Hab. cbv beta in *.
+           eapply first_match_stable; [exact X2 | exact Ws | exact Hab].
+        -- assert (Ne : x <> tr) by (intro E; subst; contradiction).
+           destruct (F2 x Hx) as [N2 Q2]. split; [exact N2|]. rewrite (Go x Ne) in Q2.
+           assert (Em : map (label s1) (t_refs (gettree st x)) = map (label st) (t_refs (gettree st x))).
+           { apply map_ext_in. intros y Hy. apply (label_ext n st s1 y Xs). eapply Vr; [right; exact Hx | exact Hy]. }
+           rewrite <- Em. exact Q2.
+Qed.
+
+Lemma migrate_trees_lists : forall n u trs st memo,
+  s_lists (fst (migrate_trees lower st n u trs memo)) = s_lists st.
+Proof.
+  intros n u trs. induction trs as [|tr r IH]; intros st memo; [reflexivity|]. cbn [migrate_trees].
+  unfold migrate_tree. destruct (recon_refs lower st n u (t_refs (gettree st tr)) memo) as [[s1 rf] m1] eqn:R.
+  rewrite IH. simpl. destruct (recon_refs_spec lower _ _ _ _ _ _ _ _ R) as [[[_ [L _]] _] _]. exact L.
+Qed.
+
+(* TreeList.migrate_taxon_namespace(n): across ALL trees of the list (one shared memo) two nodes end on one
+   taxon exactly when their labels are equal under the target's case rule *)
+Lemma migrate_list_unifies : forall st l n,
+  l < length (s_lists st) -> NoDup (l_trees (getlist st l)) ->
+  (forall tr, In tr (l_trees (getlist st l)) -> tr < length (s_trees st)) ->
+  wf_ns n st ->
+  (forall tr x, In tr (l_trees (getlist st l)) -> In x (t_refs (gettree st tr)) -> x < length (s_lab st)) ->
+  let st' := fst (migrate_list lower st l n true []) in
+  let k := key lower (ns_cs st n) in
+  l_ns (getlist st' l) = n /\ l_trees (getlist st' l) = l_trees (getlist st l)
+  /\ (forall tr, In tr (l_trees (getlist st l)) ->
+        t_ns (gettree st' tr) = n /\ length (t_refs (gettree st' tr)) = length (t_refs (gettree st tr))
+        /\ forall i, i < length (t_refs (gettree st tr)) ->
+             In (nth i (t_refs (gettree st' tr)) 0) (members st' n)
+             /\ k (label st' (nth i (t_refs (gettree st' tr)) 0)) = k (label st (nth i (t_refs (gettree st tr)) 0)))
+  /\ (forall tr1 tr2 i j, In tr1 (l_trees (getlist st l)) -> In tr2 (l_trees (getlist st l)) ->
+        i < length (t_refs (gettree st tr1)) -> j < length (t_refs (gettree st tr2)) ->
+        (nth i (t_refs (gettree st' tr1)) 0 = nth j (t_refs (gettree st' tr2)) 0
+         <-> k (label st (nth i (t_refs (gettree st tr1)) 0)) = k (label st (nth j (t_refs (gettree st tr2)) 0)))).
+Proof.
+  intros st l n Vl ND Vt W Vr. unfold migrate_list, reconstruct_list.
+  set (trs := l_trees (getlist st l)) in *.
+  set (st0 := set_list st l (mkTL n trs)).
+  assert (G0 : getlist st0 l = mkTL n trs).
+  { unfold getlist, st0. simpl. apply nth_error_some_nth. destruct (nth_error (s_lists st) l) eqn:E.
+    - eapply nth_error_upd_same. exact E.
+    - apply nth_error_None in E. lia. }
+  rewrite G0. cbn [l_ns l_trees].
+  destruct (migrate_trees_unify n (ns_cs st n) trs st0 [] ND) as [X [W' [_ [_ F]]]].
+  - exact Vt.
+  - reflexivity.
+  - exact W.
+  - intros x t A. discriminate.
+  - exact Vr.
+  - set (st' := fst (migrate_trees lower st0 n true trs [])) in *.
+    assert (L' : s_lists st' = s_lists st0) by apply migrate_trees_lists.
+    assert (G' : getlist st' l = mkTL n trs) by (unfold getlist; rewrite L'; exact G0).
+    rewrite G'. cbn [l_ns l_trees]. split; [reflexivity|]. split; [reflexivity|].
+    assert (P : forall tr i, In tr trs -> i < length (t_refs (gettree st tr)) ->
+              first_match lower st' n (ns_cs st n) (label st (nth i (t_refs (gettree st tr)) 0))
+              = Some (nth i (t_refs (gettree st' tr)) 0)).
+    { intros tr i Htr Hi. destruct (F tr Htr) as [_ Q].
+      pose proof (Forall2_nth _ _ _ _ _ (label st 0) 0 i Q) as Q'. cbv beta in Q'.
+      rewrite map_length in Q'. specialize (Q' Hi). rewrite map_nth in Q'. exact Q'. }
+    split.
+    + intros tr Htr. destruct (F tr Htr) as [N Q]. split; [exact N|]. split.
+      * apply Forall2_len in Q. rewrite map_length in Q. symmetry. exact Q.
+      * intros i Hi. destruct (first_match_some _ _ _ _ _ (P tr i Htr Hi)) as [I K]. split; [exact I | symmetry; exact K].
+    + intros tr1 tr2 i j H1 H2 Hi Hj. split.
+      * intro E. destruct (first_match_some _ _ _ _ _ (P tr1 i H1 Hi)) as [_ Ki].
+        destruct (first_match_some _ _ _ _ _ (P tr2 j H2 Hj)) as [_ Kj]. rewrite Ki, Kj, E. reflexivity.
+      * intro E. pose proof (first_match_key st' n (ns_cs st n) _ _ E) as Q. rewrite (P tr1 i H1 Hi), (P tr2 j H2 Hj) in Q.
+        injection Q as Q. exact Q.
 Qed.
 
 End WithLower.
